@@ -113,7 +113,7 @@ def run(tier, seed):
                 if "not linearly recursive" in r["error"]:
                     raised = True; r = dict(r, values={}, warned=False)
                 else:
-                    fk = "jprecompute_exception" if jp else None
+                    fk = "jprecompute_exception" if (jp and not C03.jpre_ok_shape(spec)) else None
                     violations.append(Violation("sum_products raised: " + r["error"], case=case, call=call, corr="corr:options", oracle="no exception expected", finding_key=fk))
                     continue
             else:
@@ -122,12 +122,12 @@ def run(tier, seed):
             obs = obs_from(r, spec, sr, recursive)
             if recursive:
                 cf = MT["fp"] if isinstance(sr, SRX) else C02.CF[sr.carrier()]
-                add(cf, (gw, weights_wire(spec, sr), (C01.METHODS.index(method), 3, Fraction(1, 10**6)), C02.K_ENCL, (raised, r["warned"], (not r["warned"]) and (not raised), obs)), (case, call, jp))
+                add(cf, (gw, weights_wire(spec, sr), (C01.METHODS.index(method), 3, Fraction(1, 10**6)), C02.K_ENCL, (raised, r["warned"], (not r["warned"]) and (not raised), obs)), (case, call, jp and not C03.jpre_ok_shape(spec)))
             else:
                 if raised:
                     violations.append(Violation("ValueError(not linearly recursive) on a non-recursive grammar", case=case, call=call, corr="corr:options")); continue
                 cf = MT["sp"] if isinstance(sr, SRX) else C01.CF[sr.carrier()]
-                add(cf, (gw, weights_wire(spec, sr), obs), (case, call, jp))
+                add(cf, (gw, weights_wire(spec, sr), obs), (case, call, jp and not C03.jpre_ok_shape(spec)))
     total = 0; nk = 0; skipped = 0
     for kind, (cf, vals, metas) in groups.items():
         codes, a = run_model(cf, vals, seed=seed, coq_sample=3, tag="c11" + kind.replace("-", "")); nk += a; total += len(codes)
@@ -151,7 +151,8 @@ def run(tier, seed):
                         if jp:
                             f9_skipped += 1
                             violations.append(Violation("sum_product(..., j_precompute=True).backward() raised: %r" % (e,), case=dict(spec=gen.spec_jsonable(jspec), semiring=repr(sr), method=method),
-                                                        corr="corr:options-gradient", call="backward with j_precompute=True", finding_key="jprecompute_exception"))
+                                                        corr="corr:options-gradient", call="backward with j_precompute=True",
+                                                        finding_key=(None if C03.jpre_ok_shape(jspec) else "jprecompute_exception")))
                             continue
                         raise
                     for cf, wire, meta in got:
@@ -163,7 +164,7 @@ def run(tier, seed):
             if c in (0, 30, 31): continue
             violations.append(Violation("gradient under this option combination differs from the exact derivative (C03 verdict %d)" % c, case=case,
                                         oracle="dual-number derivative (C03)", corr="C11 / C03", failing_input_found=(c == 1), call="sum_product(...).backward()",
-                                        finding_key=("jprecompute_wrong_value" if jp else None)))
+                                        finding_key=None))
     n_assert, side = asserts_with_side_effects()
     for s in side:
         violations.append(Violation("assert / __debug__ block with a possible side effect at %s (behaviour could differ under -O)" % s, case=dict(location=s),
